@@ -22,7 +22,7 @@ def rows():
             if not isinstance(v, dict):
                 verdicts.append('%s: %s' % (k, str(v)[:80]))
                 continue
-            verdicts.append('%s %s' % (k, v['verdict']))
+            verdicts.append('%s %s%s' % (k, v['verdict'], (' (model validation: %s)' % ', '.join('%s %s' % (a, b) for a, b in sorted(v['drift'].items()))) if v.get('drift') else ''))
             if not first and v['verdict'] == 'DETECTED':
                 for ln in v.get('lines', []):
                     m = re.search(r'clause=(\S+)', ln)
